@@ -51,6 +51,46 @@ def case_from_tlc(obj, h, g):
     return {"case": "tlc-" + h, "input": inp, "cli": bool(inp["sort"]) or int(h, 16) % 3 == 0}
 
 
+def _mth(nk="normal", params=0, length=2, stmts=None):
+    return {"nk": nk, "ann": 0, "params": params, "va": False, "abs": False, "len": length, "stmts": stmts or []}
+
+
+def _sized_file(k, kind, lv):
+    """One file with exactly one finding of a sized kind, size = smallest reported size + lv (as BadSmell!SizedFile)."""
+    f = {"name": "F%d" % k, "kind": "class", "ext": False, "methods": [], "padGet": 0, "padNormal": 0}
+    if kind == "longParameterList":
+        f["methods"] = [_mth(params=6 + lv)]
+    elif kind == "longMethod":
+        f["methods"] = [_mth(length=31 + lv)]
+    elif kind == "repeatedSwitches":
+        f["methods"] = [_mth(stmts=[{"t": "if", "h": 1, "nh": 0, "n": 8 + lv}])]
+    elif kind == "largeClass":
+        f["padNormal"] = 20 + lv
+    else:
+        f["padGet"] = 1 + lv
+    return f
+
+
+def fixed_cases(pid, tier, seed):
+    """The `sort` family of the Machine is small but a uniform sample of all emitted inputs picks few of it:
+    every sized kind with its sizes in six orders over two / three files is always replayed with -s type
+    (abstract inputs only; TLC judges them like every other case)."""
+    out = []
+    orders = [(0, 1), (1, 0), (0, 1, 2), (2, 0, 1), (1, 1, 0), (0, 2, 1)]
+    for kind in ["largeClass", "repeatedSwitches", "longParameterList", "longMethod", "dataClass"]:
+        for o in orders:
+            files = [_sized_file(i + 1, kind, lv) for i, lv in enumerate(o)]
+            out.append({"case": "fixed-sort-%s-%s" % (kind, "".join(map(str, o))),
+                        "input": {"files": files, "ignore": [], "sort": True}, "cli": True})
+    # two findings of one kind inside one file, and all five kinds at once
+    both = {"name": "F1", "kind": "class", "ext": False, "padGet": 0, "padNormal": 0,
+            "methods": [_mth(params=6), _mth(params=8), _mth(length=31), _mth(length=35),
+                        _mth(stmts=[{"t": "switch", "h": 1, "nh": 0, "n": 8}]), _mth(stmts=[{"t": "if", "h": 1, "nh": 0, "n": 10}])]}
+    out.append({"case": "fixed-sort-one-file", "input": {"files": [both], "ignore": [], "sort": True}, "cli": True})
+    out.append({"case": "fixed-sort-one-file-x", "input": {"files": [both], "ignore": ["longMethod"], "sort": True}, "cli": True})
+    return out
+
+
 def nontrivial(rec):
     # an input on which at least one finding was made, or from which the ignore list removed everything
     o = rec.get("observed", {})
